@@ -310,9 +310,18 @@ def concrete_io(tu, fname, kind, positional, lens, fsize, offset, pos, macros):
     m = IOModel(tu, macros, fsize, pos)
     m.data[:] = io_guest_memory(lens)
     data, f = m.data, m.f
+    before = (list(m.data), m.f.snapshot())
     ret, aborted = m.call(fname, [4, IO_IOVS, len(lens)] + ([offset] if positional else []) + [IO_RES])
-    wdata, wfile = io_reference(kind, positional, lens, fsize, offset, pos)
     what = '%s of segments %r at %s on a %d-byte file positioned at %d' % (kind, lens, ('offset 0x%X' % offset) if positional else 'the file position', fsize, pos)
+    if positional and offset >> 63:
+        # a file offset beyond the range of off_t (negative as off_t): POSIX pread/pwrite fail with EINVAL and transfer nothing
+        if aborted or ret != O.ERRNO_NUM['inval']:
+            return '%s: returns %r%s; POSIX p%sv fails with EINVAL (28) for an offset that is negative as off_t' % (
+                what, ret, ' (%s)' % aborted if aborted else '', kind)
+        if (list(m.data), m.f.snapshot()) != before:
+            return '%s: fails with EINVAL but has changed %s' % (what, 'guest memory' if list(m.data) != before[0] else 'the file or its position')
+        return None
+    wdata, wfile = io_reference(kind, positional, lens, fsize, offset, pos)
     if aborted or ret != SUCCESS:
         return '%s: returns %r (%s); POSIX %sv succeeds' % (what, ret, aborted or 'errno %r' % m.st['errno']['v'], kind)
     if data != wdata:
@@ -469,7 +478,7 @@ def io_cases(kind, positional, tier, full):
     out = []
     for sh in shapes:
         for fsize in ((0, 6) if not full else (0, 4, 9)):
-            for off in ((0, 3, (1 << 32) + 2) if positional else (0,)):
+            for off in ((0, 3, (1 << 32) + 2, (1 << 64) - 1, 1 << 63) if positional else (0,)):
                 for pos in ((1,) if not full else (0, 3)):
                     out.append((list(sh), fsize, off, pos))
     return out
